@@ -883,8 +883,46 @@ func extraC13(c *Ctx) {
 		}
 		return false
 	}
+	// the combination may be done by a helper of the package: there the rule's matches are the
+	// parameter that every call site fills with them
+	fromRuleMatches0 := fromRuleMatches
+	fromRuleMatches = func(v ssa.Value) bool {
+		if fromRuleMatches0(v) {
+			return true
+		}
+		sl := BackwardSlice(v)
+		var g *ssa.Function
+		for x := range sl {
+			if par, ok := x.(*ssa.Parameter); ok {
+				g = par.Parent()
+			}
+		}
+		if g == nil || g == fn {
+			return false
+		}
+		for i, par := range g.Params {
+			if !sl[par] {
+				continue
+			}
+			sites := p.Callers(g)
+			all := len(sites) > 0
+			for _, cs := range sites {
+				if cs.Args == nil || i >= len(cs.Args) || !fromRuleMatches0(cs.Args[i]) {
+					all = false
+				}
+			}
+			if all {
+				return true
+			}
+		}
+		return false
+	}
 	n := 0
-	for _, b := range fn.Blocks {
+	var scanBlocks []*ssa.BasicBlock
+	for _, g := range samePkgClosure(p, fn) {
+		scanBlocks = append(scanBlocks, g.Blocks...)
+	}
+	for _, b := range scanBlocks {
 		for _, in := range b.Instrs {
 			al, ok := in.(*ssa.Alloc)
 			if !ok {
